@@ -409,6 +409,31 @@ func runC06(ctx *report.Ctx) {
 			report1("panic", fr.Panic, fr.PanicArgs)
 		}
 	})
+	// P1-markup: lines and option labels whose markup is odd, wrong or produced by interpolation: preparing them may
+	// fail (an error), it never panics, and the dialogue goes on
+	markupLines := []string{
+		`[plural value=2 one="% a" other="% b\\\\" /]`, `[select value=a a="%\\\\" /]`, `[ordinal value=1 one="\\\\%\\\\" other="x" /] tail`, `[select value=a a="\\\\" /]`,
+		`[plural value=2 one="%" other="%%%" /]`, `[select value=b a="1" /]`, `[plural value=x one="1" /]`, `[ordinal value=1.5 one="1" /]`, `[select /]`, `[plural value=1 /]`,
+		`[a`, `x [b/`, `[/]`, `[/a]`, `[a][/b]`, `[nomarkup]never closed`, `[select value=a a="1"]never closed`, `[a=]`, `[a x=]`, `[=1]`, `[a x="unterminated]`,
+		`{"["}`, `{"[a]"}x{"[/a]"}`, `{"[a"}`, `{"\\\\"}`, `{"[nomarkup]"}[b]{"[/nomarkup]"}`, `{"[select value=a a="}"1"{"/]"}`, `{$f}: [b]x[/b]`, `é: [select value={$f} True="t" False="f" /]`,
+	}
+	part(ctx, "P1-markup", -1, func(c *explore.Chooser) {
+		text := markupLines[c.Choose(len(markupLines), "line")]
+		where := c.Choose(3, "where")
+		if !c.Mine() {
+			return
+		}
+		var body []*yc.Stmt
+		switch where {
+		case 0:
+			body = []*yc.Stmt{yc.Line(text)}
+		case 1:
+			body = []*yc.Stmt{yc.Options(&yc.Option{Line: yc.TextLine("plain"), Body: []*yc.Stmt{yc.Line("in1")}}, &yc.Option{Line: yc.TextLine(text), Body: []*yc.Stmt{yc.Line("in2")}})}
+		case 2:
+			body = []*yc.Stmt{yc.Options(&yc.Option{Line: yc.TextLine(text)}, &yc.Option{Line: yc.TextLine(text + " again")}), yc.Line(text)}
+		}
+		c06Run(ctx, c, "P1-markup", wrapProgram(body), "odd markup: "+text, false)
+	})
 	domainPos := pos
 	part(ctx, "P1-domain", -1, func(c *explore.Chooser) {
 		ps := domainPos[c.Choose(len(domainPos), "position")]
